@@ -41,12 +41,22 @@ func (p *PointProj) scalarMulGLV(p1 *PointProj, scalar *big.Int) *PointProj {
 
 	res.setInfinity()
 
+	// the projective formulas of phi map the identity to (0:0:0)
+	if p1.IsZero() {
+		p.Set(&res)
+		return p
+	}
+
 	// table[b3b2b1b0-1] = b3b2*phi(p1) + b1b0*p1
 	table[0].Set(p1)
 	table[3].phi(p1)
 
 	// split the scalar, modifies +-p1, phi(p1) accordingly
-	k := ecc.SplitScalar(scalar, &curveParams.glvBasis)
+	// reduce the scalar modulo the subgroup order first: k1, k2 are stored in fr.Element below,
+	// whose modulus is not that order, so halves longer than fr.Bits would be reduced wrongly
+	var s big.Int
+	s.Mod(scalar, &curveParams.Order)
+	k := ecc.SplitScalar(&s, &curveParams.glvBasis)
 
 	if k[0].Sign() == -1 {
 		k[0].Neg(&k[0])
@@ -138,12 +148,22 @@ func (p *PointExtended) scalarMulGLV(p1 *PointExtended, scalar *big.Int) *PointE
 
 	res.setInfinity()
 
+	// the projective formulas of phi map the identity to (0:0:0)
+	if p1.IsZero() {
+		p.Set(&res)
+		return p
+	}
+
 	// table[b3b2b1b0-1] = b3b2*phi(p1) + b1b0*p1
 	table[0].Set(p1)
 	table[3].phi(p1)
 
 	// split the scalar, modifies +-p1, phi(p1) accordingly
-	k := ecc.SplitScalar(scalar, &curveParams.glvBasis)
+	// reduce the scalar modulo the subgroup order first: k1, k2 are stored in fr.Element below,
+	// whose modulus is not that order, so halves longer than fr.Bits would be reduced wrongly
+	var s big.Int
+	s.Mod(scalar, &curveParams.Order)
+	k := ecc.SplitScalar(&s, &curveParams.glvBasis)
 
 	if k[0].Sign() == -1 {
 		k[0].Neg(&k[0])
